@@ -389,8 +389,13 @@ func c05Options(c *Ctx) {
 					if sel, ok := v.Fun.(*ast.SelectorExpr); ok {
 						src = sel.Sel.Name
 					}
+				case *ast.Ident:
+					// a local prepared before the literal (`commentExcludes := …`): its name is what is compared
+					if _, isVar := info.Uses[v].(*types.Var); isVar {
+						src = v.Name
+					}
 				}
-				c.Ob(rule, fname+"/"+tn+"."+key, kv.Pos(), src == key, true, "field %s is filled from %q (want the like-named field/accessor)", key, src)
+				c.Ob(rule, fname+"/"+tn+"."+key, kv.Pos(), strings.EqualFold(src, key), true, "field %s is filled from %q (want the like-named field/accessor)", key, src)
 			}
 			return true
 		})
